@@ -114,7 +114,7 @@ int main(int argc, char** argv) {
   for (unsigned i = 0; i < sizeof lens / sizeof *lens; i++) {
     /* the same chunked string bare, and wrapped so that the overflow has to propagate through every container kind:
      * wrap = bytes the wrappers add around it */
-    for (int wrapkind = 0; wrapkind < 7; wrapkind++) {
+    for (int wrapkind = 0; wrapkind < 9; wrapkind++) {
       cbor_item_t* s = cbor_new_indefinite_bytestring();
       cbor_item_t* ch[3];
       fputs("{\"e\":\"sersize\",\"lens\":[", vh_out);
@@ -128,8 +128,10 @@ int main(int argc, char** argv) {
       fputs("]", vh_out);
       cbor_item_t* top = s;
       cbor_item_t* one = cbor_build_uint8(1);
-      int wrap = 0;
+      int wrap = 0, mult = 1;
       switch (wrapkind) {
+        case 7: top = cbor_new_definite_map(1); (void)cbor_map_add(top, (struct cbor_pair){.key = s, .value = s}); wrap = 1; mult = 2; break;   /* a1 <s> <s>: key and value both huge */
+        case 8: top = cbor_new_indefinite_array(); (void)cbor_array_push(top, s); (void)cbor_array_push(top, one); (void)cbor_array_push(top, s); wrap = 3; mult = 2; break; /* 9f <s> 01 <s> ff */
         case 0: top = cbor_incref(s); break;
         case 1: top = cbor_build_tag(1, s); wrap = 1; break;                                                   /* c1 <s> */
         case 2: { cbor_item_t* t = cbor_build_tag(1000, s); top = cbor_build_tag(2, t); cbor_decref(&t); wrap = 4; break; } /* c2 d9 03e8 <s> */
@@ -139,6 +141,7 @@ int main(int argc, char** argv) {
         default: { cbor_item_t* t = cbor_build_tag(7, s); top = cbor_new_indefinite_map(); (void)cbor_map_add(top, (struct cbor_pair){.key = t, .value = one}); cbor_decref(&t); wrap = 4; break; } /* bf c7 <s> 01 ff */
       }
       vh_kint("wrap", wrap);
+      vh_kint("mult", mult);
       vh_kint("wrapkind", wrapkind);
       b8("size", cbor_serialized_size(top));
       fputs("}\n", vh_out);
